@@ -3,6 +3,7 @@ import EmbitModel.Model.Cost
 import EmbitModel.Driver.Psbt
 import EmbitModel.Model.CostBin
 import EmbitModel.Model.ViewCost
+import EmbitModel.Model.ViewCost2
 /-
   Line protocol for C17 (text parsers): the cost companions of `Model/Cost.lean` on the driver's key decoders.
     c17.desc TEXT   →  ok STREAMCALLS READFROMCALLS DEPTH ACCEPTED      (TEXT: hex of the ASCII bytes)
@@ -13,6 +14,8 @@ import EmbitModel.Model.ViewCost
     c17.lnvo OFF BYTES       →  ok ITERS STEPS VALUE|none               (`GlobalLTransactionView(s, OFF).num_vout_offset`)
     c17.hashto L POS BYTES   →  ok ITERS STEPS 1|0                      (`PSETView._hash_to(h, L)` at POS; 1 = no exception)
     c17.skipscope POS BYTES  →  ok ITERS STEPS NEWPOS|none              (`PSBTView._skip_scope` at POS)
+    c17.lvin OFF I BYTES     →  ok ITERS STEPS POS|none                 (`GlobalLTransactionView(s, OFF).vin(I)` up to the input parser)
+    c17.seekscope FIRST N BYTES → ok ROUNDS STEPS POS|none SCOPES       (`PSBTView.seek_to_scope(N)` with first_scope = FIRST)
 -/
 namespace Embit.Driver
 open Embit Embit.Model.Descriptor Embit.Model.Cost
@@ -50,6 +53,15 @@ def handleCost (op : String) (args : List String) : Option String :=
     let (pos, b) ← runTok (do let c ← tokNat; let b ← tokBytes; pure (c, b)) args
     let r := Model.ViewCost.skipScopeC b (b.length + 2) pos
     pure (joinToks ["ok", toString r.iters, toString r.steps, match r.out with | .done _ p => toString p | _ => "none"])
+  | "c17.lvin" => do
+    let (off, i, b) ← runTok (do let c ← tokNat; let i ← tokNat; let b ← tokBytes; pure (c, i, b)) args
+    let q := Model.ViewCost.vinSeekC true b off i
+    pure (joinToks ["ok", toString q.2.1, toString q.2.2, match q.1 with | some v => toString v | none => "none"])
+  | "c17.seekscope" => do
+    let (first, n, b) ← runTok (do let c ← tokNat; let i ← tokNat; let b ← tokBytes; pure (c, i, b)) args
+    let q := Model.ViewCost.seekToScopeC b first n
+    pure (joinToks ["ok", toString q.rounds, toString q.steps, (match q.pos with | some v => toString v | none => "none"),
+      toString q.scopes])
   | _ => none
 
 end Embit.Driver
